@@ -43,6 +43,7 @@ import (
 	"github.com/Eyevinn/mp4ff/mp4"
 	"pgregory.net/rapid"
 
+	"verif/internal/boxgen"
 	"verif/internal/fragbuild"
 	"verif/internal/harness"
 	"verif/internal/mp4build"
@@ -78,7 +79,8 @@ var avoidKnown = map[string]bool{
 }
 
 type input struct {
-	Kind    string                `json:"kind"` // "prog" | "frag" | "repo"
+	Kind    string                `json:"kind"`           // "prog" | "frag" | "repo" | "synth"
+	Data    harness.HexBytes      `json:"data,omitempty"` // "synth": a file written by the grammar generator internal/boxgen
 	Tracks  []mp4build.Track      `json:"tracks,omitempty"`
 	Layout  *mp4build.ProgLayout  `json:"layout,omitempty"`
 	FTracks []fragbuild.Track     `json:"ftracks,omitempty"`
@@ -89,7 +91,8 @@ type input struct {
 
 type job struct {
 	Input int    `json:"input"`
-	SR    bool   `json:"sr,omitempty"` // decode with mp4.DecodeFileSR over the shared slice (else mp4.DecodeFile over a bytes.Reader)
+	SR    bool   `json:"sr,omitempty"`  // decode with mp4.DecodeFileSR over the shared slice (else mp4.DecodeFile over a bytes.Reader)
+	Buf   bool   `json:"buf,omitempty"` // DecodeFile over a *bytes.Buffer that wraps the shared slice (read only) instead of a bytes.Reader
 	Act   string `json:"act"`
 	Mode  int    `json:"mode,omitempty"` // File.FragEncMode for the encoding actions
 }
@@ -102,7 +105,7 @@ type jobMixCase struct {
 	NoAvoid  bool `json:"noAvoid,omitempty"`
 }
 
-var allActs = []string{"decode", "info", "encode", "encodeSW", "samples", "lazycopy", "encrypt-cenc", "encrypt-cbcs", "decrypt", "annexb", "params"}
+var allActs = []string{"decode", "info", "encode", "encodeSW", "samples", "lazycopy", "encrypt-cenc", "encrypt-cbcs", "decrypt", "annexb", "params", "mutate"}
 
 func (j job) crypt() bool { return j.Act == "decrypt" || strings.HasPrefix(j.Act, "encrypt-") }
 
@@ -201,6 +204,11 @@ func (in *input) materialise() ([]byte, error) {
 			return nil, err
 		}
 		return fragbuild.Concat(init, segs, truth), nil
+	case "synth":
+		if len(in.Data) == 0 {
+			return nil, fmt.Errorf("no data")
+		}
+		return clone(in.Data), nil
 	case "repo":
 		var out []byte
 		for _, p := range in.Paths {
@@ -388,6 +396,11 @@ func runJob(j job, shared []byte, key string, private bool) (res result) {
 		if err != nil {
 			return fail("DecodeFileSR", err)
 		}
+	case j.Buf:
+		f, err = mp4.DecodeFile(bytes.NewBuffer(shared[:len(shared):len(shared)]))
+		if err != nil {
+			return fail("DecodeFile(bytes.Buffer)", err)
+		}
 	default:
 		f, err = mp4.DecodeFile(bytes.NewReader(shared))
 		if err != nil {
@@ -417,6 +430,42 @@ func runJob(j job, shared []byte, key string, private bool) (res result) {
 			return fail("EncodeSW", err)
 		}
 		w.Write(sw.Bytes())
+	case "mutate":
+		// the decoded structure is this goroutine's own: changing it must not reach the shared input or the
+		// structures other goroutines decoded from it
+		if f.Ftyp != nil {
+			f.Ftyp.AddCompatibleBrands([]string{"vrf1", "vrf2", "vrf3", "vrf4", "vrf5", "vrf6"})
+		}
+		for _, seg := range f.Segments {
+			if seg.Styp != nil {
+				seg.Styp.AddCompatibleBrands([]string{"vrf1", "vrf2", "vrf3", "vrf4"})
+			}
+			for _, fr := range seg.Fragments {
+				if fr.Mdat != nil && len(fr.Mdat.Data) > 0 {
+					fr.Mdat.Data[0] ^= 0xff
+					fr.Mdat.Data[len(fr.Mdat.Data)-1] ^= 0xff
+				}
+				if fr.Moof != nil && fr.Moof.Mfhd != nil {
+					fr.Moof.Mfhd.SequenceNumber += 1000
+				}
+			}
+		}
+		if f.Mdat != nil && len(f.Mdat.Data) > 0 {
+			f.Mdat.Data[0] ^= 0xff
+			f.Mdat.Data[len(f.Mdat.Data)-1] ^= 0xff
+		}
+		if f.Moov != nil && f.Moov.Mvhd != nil {
+			f.Moov.Mvhd.NextTrackID += 7
+			for _, trak := range f.Moov.Traks {
+				if trak.Mdia != nil && trak.Mdia.Hdlr != nil {
+					trak.Mdia.Hdlr.Name += " (changed)"
+				}
+			}
+		}
+		f.FragEncMode = mp4.EncFragFileMode(j.Mode & 1)
+		if err := f.Encode(&w); err != nil {
+			return fail("Encode", err)
+		}
 	case "samples":
 		if !f.IsFragmented() {
 			if f.Moov == nil || f.Mdat == nil {
@@ -670,8 +719,8 @@ func evalJobMix(c *jobMixCase, st *stats) *harness.Fail {
 	}
 	private := make([]bool, len(c.Jobs))
 	for i, j := range c.Jobs {
-		if j.SR && j.crypt() && c.avoid(st, "sr-decode-crypt-writes-shared-input") {
-			private[i] = true
+		if j.SR && (j.crypt() || j.Act == "mutate") && c.avoid(st, "sr-decode-crypt-writes-shared-input") {
+			private[i] = true // DecodeFileSR aliases the input as MdatBox.Data (known finding): writing through it is the same mechanism
 		}
 	}
 	modified := func() int {
@@ -890,13 +939,19 @@ var repoPool = []repoEntry{
 }
 
 var (
-	progActs    = []string{"decode", "info", "encode", "encodeSW", "samples", "lazycopy", "params"}
-	fragActs    = []string{"decode", "info", "encode", "encodeSW", "samples", "params"}
+	progActs    = []string{"decode", "info", "encode", "encodeSW", "samples", "lazycopy", "params", "mutate"}
+	fragActs    = []string{"decode", "info", "encode", "encodeSW", "samples", "params", "mutate"}
+	synthActs   = []string{"decode", "info", "info", "encode", "encodeSW", "mutate"}
 	fragEncActs = []string{"decode", "info", "encode", "encodeSW", "samples", "encrypt-cenc", "encrypt-cbcs", "encrypt-cenc", "encrypt-cbcs"}
 )
 
 func genInput(t *rapid.T) (input, []string) {
-	switch rapid.SampledFrom([]string{"prog", "prog", "frag", "frag", "fragenc", "fragenc", "repo", "repo"}).Draw(t, "inputKind") {
+	switch rapid.SampledFrom([]string{"prog", "prog", "frag", "frag", "fragenc", "fragenc", "repo", "repo", "synth", "synth"}).Draw(t, "inputKind") {
+	case "synth":
+		// every box type and version/flag shape of the grammar generator (sample groups of every grouping type,
+		// sample entries, uuid boxes, ...): registries and per-type decoders are exercised concurrently
+		kind := rapid.SampledFrom([]string{"prog", "init", "media", "frag", "frag"}).Draw(t, "synthKind")
+		return input{Kind: "synth", Data: boxgen.File(t, kind, boxgen.Opt{})}, synthActs
 	case "prog":
 		tracks := mp4build.GenTracks(t, mp4build.GenOpt{MaxSamples: 10, MaxSampleSize: 40, MaxTracks: 2})
 		lay := mp4build.GenProgLayout(t, tracks)
@@ -977,6 +1032,9 @@ func genJobMix(t *rapid.T) jobMixCase {
 		}
 		j := job{Input: k, Act: rapid.SampledFrom(acts[k]).Draw(t, "act")}
 		j.SR = rapid.Bool().Draw(t, "sr")
+		if !j.SR && j.Act != "lazycopy" {
+			j.Buf = rapid.IntRange(0, 2).Draw(t, "buf") == 0
+		}
 		j.Mode = rapid.IntRange(0, 1).Draw(t, "mode")
 		c.Jobs = append(c.Jobs, j)
 	}
